@@ -15,6 +15,7 @@ RULE = ("every header string over {CR,LF,'a',':'} up to a length bound (exhausti
         "inside the handler / later x HEAD translation: refused (nothing written) iff the string would split the head")
 TRUSTED_BASE = ["Lean 4.33 kernel", "axioms: propext, Classical.choice, Quot.sound at most",
                 "tools/extract.py (CRLF constant, window initialisation)", "rx_driver harness + via_model driver",
+                "tools/cxx2lean_enc.py (translation of are_headers_split and tx_response::is_valid and of the encoders; the model is proved equal to it in ViaProofs/Trans/ENC)",
                 "std::string modelled as List UInt8"]
 ASSUMPTIONS = ["reason phrase and version bytes contain no LF (they are not header input)",
                "send overloads refuse exactly when is_valid() is false: checked on the real http_connection by the C04/C03 sim checks"]
